@@ -30,7 +30,7 @@ class DistFamily(common.Family):
     if rng.random() < 0.3:
       # aggregates on two named stages of a chain
       pipes.gen_early(rng, spec)
-    return {
+    cfg = {
         'mode': mode,
         'spec': spec,
         'workers': rng.choice([1, 2, 2, 3]),
@@ -50,6 +50,15 @@ class DistFamily(common.Family):
         'sim': {'fine': rng.random() < 0.1,
                 'stay': rng.choice([0.0, 0.5, 0.8])},
     }
+    # scale: a few sharded runs over a source longer than the 64-element
+    # read-ahead of the sequence iterators, so that a worker's shard spans
+    # several read-ahead blocks and ends inside one (drawn last: the other
+    # dimensions of a seed are unchanged)
+    if rng.random() < 0.03 and mode == 'sharded':
+      spec['n'] = rng.randrange(65, 160)
+      cfg['sim']['fine'] = False
+      cfg['ibs'] = rng.choice([0, 4, 8])
+    return cfg
 
   # ------------------------------------------------------------------------
   def drive(self, cfg, sim):
